@@ -24,9 +24,10 @@ SRC = os.environ.get("EXECNET_VERIF_SRC", "/repo/src")
 POINTS: list[tuple[str, str, int]] = []  # K -> (module basename, qualname, lineno)
 _POINT_INDEX: dict[tuple[str, str, int], int] = {}
 
-# functions whose statements are never preemption points: they touch only
-# objects local to the calling thread (serializer/unserializer instances,
-# Message objects, tracing) -- see DESIGN 1.1
+# functions whose statements are not preemption points in the DEFAULT mask: they are
+# meant to touch only objects local to the calling thread (serializer/unserializer
+# instances, Message objects, tracing) -- see DESIGN 1.1.  They ARE instrumented, so a
+# check can select them explicitly (C01 does, to catch state leaking out of them).
 EXCLUDE_PREFIXES = (
     "_Serializer.",
     "Unserializer.",
@@ -113,7 +114,7 @@ class _Transformer(ast.NodeTransformer):
         out: list[ast.stmt] = []
         for i, st in enumerate(body):
             st = self.visit(st)
-            if self.infunc and not _excluded(".".join(self.stack)):
+            if self.infunc:
                 is_doc = (
                     i == 0
                     and docstring_ok
@@ -249,3 +250,7 @@ def point_name(k: int) -> str:
 def select(pred) -> bytearray:
     """mask over POINTS: 1 where pred(module, qualname, lineno)"""
     return bytearray(1 if pred(*p) else 0 for p in POINTS)
+
+
+def default_pred(m, q, l) -> bool:
+    return not _excluded(q)
